@@ -131,7 +131,7 @@ func genC09Docs(c *Ctx) {
 		}
 		var files []c12File
 		for j, nm := range names {
-			files = append(files, c12File{nm, c12Journal(r, dir, nm, targets[j], 1+r.IntN(3))})
+			files = append(files, c12File{Name: nm, Text: c12Journal(r, dir, nm, targets[j], 1+r.IntN(3))})
 		}
 		var evs []c09DocEv
 		opened := map[int]bool{}
